@@ -12,7 +12,7 @@
    Statement only; proof in Proofs/SerializerParse.v.  The model is tied to the real class by the `ser` command
    (serops stream, mode S: parses from components with shorten_path in between). *)
 From Upa Require Import Base.Prelude Spec.Ip Spec.Url Impl.Repr Impl.Serializer.
-From Upa Require Import Proofs.ReprProofs Proofs.SerializerProofs Proofs.SerializerParse.
+From Upa Require Import Proofs.ReprProofs Proofs.SerializerProofs Proofs.SerializerParse Proofs.SerializerEmit.
 Local Open Scope N_scope.
 
 Theorem C01_ser_pathname_pieces : forall ps0 m f,
@@ -30,6 +30,25 @@ Theorem C01_ser_shorten : forall s ps f segs,
   SP (ser_shorten_path s) (setp ps 8 (pstr (shorten_segs (s_file s) segs))) f (shorten_segs (s_file s) segs) /\
   s_file (ser_shorten_path s) = s_file s.
 Proof. exact ser_path_shorten. Qed.
+
+(* the authority part of a parse - scheme, "//", credentials (none / user / user:password / :password), host: the
+   "//", ":", "@" bookkeeping of start_part from SCHEME, USERNAME and PASSWORD *)
+Theorem C01_ser_authority : forall sc us pw h ht,
+  let s1 := run false empty_sst (auth_ops sc us pw h ht) in
+  s_r s1 = conc (auth_pieces sc us pw h) 6 (host_flags 269 ht) 0 /\ s_last s1 = P_HOST /\ s_file s1 = is_file_str sc.
+Proof. exact ser_authority. Qed.
+
+(* the whole write sequence of a parse, for every record with a host and a list path (segments without '/'):
+   scheme, "//", credentials, host, [port], the segments, commit_path, [query], [fragment], run through the model of
+   url_serializer from the EMPTY object, give - up to the trailing-offset freedom - exactly repr_of u: the string,
+   the 11 offsets, the flag word (host type, not-null bits) and the segment counter.  This is what Impl/Repr.v says
+   repr_of is ("the representation url_serializer leaves after a fresh parse"), and what the repr= field of every
+   state line of every stream compares the real objects with. *)
+Theorem C01_emit_repr : forall sc us pw H po segs q fr,
+  sc <> [] -> Forall no47 segs ->
+  let u := mkurl sc us pw (Some H) po (PList segs) q fr in
+  norm_tail (s_r (run false empty_sst (emit_ops sc us pw (host_serialize H) (host_type_num H) po segs q fr))) = repr_of u.
+Proof. exact emit_repr. Qed.
 
 (* non-vacuity, evaluated: after "http://h" the path /a/../b/ ; file: the drive letter survives ".." *)
 Example C01_ser_path_example :
@@ -50,4 +69,6 @@ Qed.
 
 Print Assumptions C01_ser_pathname_pieces.
 Print Assumptions C01_ser_shorten.
+Print Assumptions C01_ser_authority.
+Print Assumptions C01_emit_repr.
 Print Assumptions C01_ser_path_example.
